@@ -69,7 +69,16 @@ def pred_affine_eq_skip_self(prop, w):
     return w.get("plane") == "B" and w.get("kind") == "not_a_fixpoint" and bool(w.get("affine_eq_only"))
 
 
+def pred_partial_message(prop, w):
+    """The caller is blocked inside Connection._recv_bytes under Queue.get: it is reading a message whose writer was killed in
+    the middle of it. Only possible for messages larger than PIPE_BUF (4096 bytes: smaller ones are written atomically)."""
+    c = w.get("midwrite_case") or {}
+    return (w.get("kind") == "caller_blocked_reading_a_partial_message" and c.get("message_bytes", 0) > 4096
+            and any("recv_bytes" in x for x in (w.get("blocked_in") or [])))
+
+
 PREDICATES = {
+    "partial_message_of_a_killed_worker": pred_partial_message,
     "gcc_zero_capacity": pred_gcc_zero_capacity,
     "affine_eq_single_round_skip_self": pred_affine_eq_skip_self,
 }
